@@ -121,3 +121,64 @@ fn slow_quantile_ignores_nulls() {
     assert!(same(clean.vquantile(q, QuantileMethod::Higher).unwrap(), hi));
     assert!(same(padded.vquantile(q, QuantileMethod::Higher).unwrap(), hi));
 }
+
+// ---- C12, bounded: percentile of a score (tea-agg vpercentile_of; not under a Verus contract) against the documented
+// proportions: strict = #smaller / n, weak = #smaller-or-equal / n, rank = average percentage rank of the matching elements
+// (#smaller / n when nothing matches).  Every series of length <= 4 over {null, -2..2}, every score in -3..=3 or null.
+#[kani::proof]
+#[kani::unwind(6)]
+fn bounded_order_percentile_of() {
+    use tea_agg::*;
+    let a: [Option<i32>; N] = [any_small(), any_small(), any_small(), any_small()];
+    let n: usize = kani::any();
+    kani::assume(n <= N);
+    let s = &a[..n];
+    let score = any_small();
+    let (mut less, mut eq, mut tot) = (0usize, 0usize, 0usize);
+    for x in s { if let Some(v) = *x { tot += 1; if let Some(sc) = score { if v < sc { less += 1; } else if v == sc { eq += 1; } } } }
+    let strict = s.iter().cloned().vpercentile_of(score, PercentileOfMethod::Strict);
+    let weak = s.iter().cloned().vpercentile_of(score, PercentileOfMethod::Weak);
+    let rank = s.iter().cloned().vpercentile_of(score, PercentileOfMethod::Rank);
+    if score.is_none() || tot == 0 {
+        assert!(strict.is_nan() && weak.is_nan() && rank.is_nan());
+    } else {
+        let t = tot as f64;
+        assert!(strict * t == less as f64);
+        assert!(weak * t == (less + eq) as f64);
+        // 2 * rank * n == 2 * #smaller + (#equal + 1) when something matches, 2 * #smaller otherwise
+        let want2 = if eq == 0 { 2 * less } else { 2 * less + eq + 1 };
+        let d = 2.0 * rank * t - want2 as f64;
+        assert!(d < 1e-9 && d > -1e-9);
+    }
+}
+
+// ---- masked sum / mean (tea-agg lib.rs n_vsum_filter / n_sum_filter / vmean_filter): only the non-null elements whose mask entry is
+// a non-null true count; C11 / C08 (a null in the data or in the mask is transparent)
+#[kani::proof]
+#[kani::unwind(6)]
+fn bounded_agg_masked_sum_mean() {
+    use tea_agg::*;
+    let a: [Option<i32>; N] = [any_small(), any_small(), any_small(), any_small()];
+    let m: [Option<bool>; N] = [any_ob(), any_ob(), any_ob(), any_ob()];
+    let n: usize = kani::any();
+    kani::assume(n <= N);
+    let (mut cnt, mut sum) = (0usize, 0i32);
+    let mut i = 0;
+    while i < n {
+        if let (Some(v), Some(true)) = (a[i], m[i]) { cnt += 1; sum += v; }
+        i += 1;
+    }
+    let (c1, s1) = a[..n].iter().cloned().n_vsum_filter(m[..n].iter().cloned());
+    assert!(c1 == cnt && s1 == sum);
+    let s2 = a[..n].iter().cloned().n_sum_filter(m[..n].iter().cloned());
+    assert!(s2 == if cnt > 0 { Some(sum) } else { None });
+    let mp: usize = kani::any();
+    kani::assume(mp <= N);
+    let mean = a[..n].iter().cloned().vmean_filter(m[..n].iter().cloned(), mp);
+    if cnt >= mp && cnt > 0 {
+        let d = mean * cnt as f64 - sum as f64;
+        assert!(!mean.is_nan() && d < 1e-9 && d > -1e-9);
+    } else if cnt < mp {
+        assert!(mean.is_nan());
+    }
+}
